@@ -123,11 +123,22 @@ def _interpolator_stub(coeff, nf, variation):
 
 
 class _Vec:
+    """adani.Value: central / higher / lower"""
+
     def __init__(self, vals):
         self._v = vals
 
     def ToVect(self):
         return self._v
+
+    def GetCentral(self):
+        return self._v[0]
+
+    def GetHigher(self):
+        return self._v[1]
+
+    def GetLower(self):
+        return self._v[2]
 
 
 class _AdaniObj:
@@ -160,6 +171,24 @@ def _all_cf_modules():
     return [m for n, m in list(sys.modules.items()) if n.startswith(pref) and isinstance(m, types.ModuleType)]
 
 
+_ACTIVE = []  # stack of `saved` lists of the installed stub layers
+
+
+@contextlib.contextmanager
+def suspended():
+    """Temporarily put the real objects back (float replays must run against the real code and libraries)."""
+    swapped = []
+    try:
+        for saved in reversed(_ACTIVE):
+            for mod, attr, old in reversed(saved):
+                swapped.append((mod, attr, getattr(mod, attr) if not isinstance(mod, type) else vars(mod).get(attr)))
+                setattr(mod, attr, old)
+        yield
+    finally:
+        for mod, attr, cur in reversed(swapped):
+            setattr(mod, attr, cur)
+
+
 @contextlib.contextmanager
 def cf_stubs(np_shim=None, external=True):
     """Install atoms for li2/spence/nielsen (+ LeProHQ/adani) and the numpy shim in every loaded
@@ -181,6 +210,7 @@ def cf_stubs(np_shim=None, external=True):
 
     special_ns = types.SimpleNamespace(**{k: getattr(special, k) for k in dir(special) if not k.startswith("__")})
     special_ns.li2 = li2_stub(orig_li2)
+    _ACTIVE.append(saved)
     try:
         for m in _all_cf_modules():
             if m.__name__.startswith("yadism.coefficient_functions.special"):
@@ -210,5 +240,6 @@ def cf_stubs(np_shim=None, external=True):
                         setattr(cls, "hs3", _AdaniObj(f"adani_hs3_{m.__name__.split('.')[-1]}_{cname}"))
         yield libs
     finally:
+        _ACTIVE.remove(saved)
         for mod, attr, old in reversed(saved):
             setattr(mod, attr, old)
